@@ -110,7 +110,7 @@ def run(ctx):
         "ever obtains a cache slot holding another transaction's uncommitted changes, whatever is evicted when (M8d: no_transaction_sees_anothers_uncommitted_inode; the other order is "
         "a six-step counterexample); locks are given back only after the flush, unstable WRITEs aside (validated on every recorded transaction: token u of the lock traces), and under that "
         "discipline what another transaction reads under the lock equals what a crash at that moment recovers, for every interleaving of commits, background logging and releases "
-        "(M11: what_another_transaction_reads_is_durable; four-step counterexample without it). The hypotheses "
+        "(M14: what_another_transaction_reads_is_durable; four-step counterexample without it). The hypotheses "
         "are checked on the recorded event trace of every run; every concurrent history is replayed in the observed commit order on the sequential reference model (C02) and "
         "every reply must match — the witness order comes from the theorem, no search over orders",
         "concurrent histories: N clients on a shared pool of 8 names in the root and shared sub-directories (create/mkdir/symlink/lookup/remove/rmdir, same- and cross-directory renames "
